@@ -29,6 +29,7 @@ def write_setup(wd, setup):
     tested is what the program itself stores, not the hand-made initial files."""
     kw = dict(setup)
     eps = kw.pop("hair", None)
+    intf_shift = kw.pop("hair_intf_shift", 0.0)     # interfaces with MORE than six decimals: integer + shift
     if eps is None:
         return H.write_setup(wd, **kw)
     import tomli
@@ -42,7 +43,7 @@ def write_setup(wd, setup):
         config = tomli.load(f)
     if config["simulation"]["interfaces"] != H.lattice_interfaces(n):
         raise ValueError("hair: unexpected interfaces in the set-up written by sysharness")
-    config["simulation"]["interfaces"] = hair_interfaces(n, eps)
+    config["simulation"]["interfaces"] = [v + intf_shift for v in hair_interfaces(n, eps)]
     config["engine"]["order_eps"] = float(eps)
     config["orderparameter"]["order_eps"] = float(eps)
     with open(tp, "wb") as f:
@@ -81,6 +82,27 @@ def on_interface(wd):
                     vals.append(float(line.split()[1]))
         if vals and max(vals) == intf[slot - 1]:
             out.append((slot, int(pn), moves[slot]))
+    return out
+
+
+def below_interface(wd):
+    """[(slot, path, interface - stored maximum)]: live paths of restart.toml in plain-shooting slots whose STORED
+    maximum order is below the interface of their slot (calc_cv_vector gives them weight 0 there)"""
+    import tomli
+    with open(os.path.join(wd, "restart.toml"), "rb") as f:
+        cfg = tomli.load(f)
+    intf, moves = cfg["simulation"]["interfaces"], cfg["simulation"]["shooting_moves"]
+    out = []
+    for slot, pn in enumerate(cfg["current"]["active"]):
+        if slot == 0 or moves[slot] != "sh":
+            continue
+        vals = []
+        with open(os.path.join(wd, cfg["simulation"]["load_dir"], str(pn), "order.txt")) as f:
+            for line in f:
+                if not line.startswith("#") and line.strip():
+                    vals.append(float(line.split()[1]))
+        if vals and max(vals) < intf[slot - 1]:
+            out.append((slot, int(pn), intf[slot - 1] - max(vals)))
     return out
 
 
@@ -189,6 +211,11 @@ def crash_case(case):
                         out["info"]["on_interface"] = on_interface(wd)
                     except Exception as e:  # noqa: BLE001
                         out["info"]["on_interface"] = f"unreadable: {e!r}"
+                if "hair_intf_shift" in kw and "below_interface" not in out["info"]:
+                    try:
+                        out["info"]["below_interface"] = below_interface(wd)
+                    except Exception as e:  # noqa: BLE001
+                        out["info"]["below_interface"] = f"unreadable: {e!r}"
                 locked_rec = sorted(repr(([int(e) - 1 for e in a], [int(p) for p in b])) for a, b in cur["locked"])
                 if rnd is rounds[0] and first_events is not None:
                     # what the record must list: the jobs that were in flight when it was written, i.e. right after
